@@ -316,7 +316,10 @@ def _run_impl(lines, dp, cfg):
         im.step_dp.append(im.dp)
     # leave no context manager open
     while im.ctx:
-        im.ctx.pop().__exit__(None, None, None)
+        try:
+            im.ctx.pop().__exit__(None, None, None)
+        except Exception:          # harness clean-up after the history has ended: whatever the exit does is not part of the case
+            pass
     return out_lines, recs, im
 
 
